@@ -187,10 +187,10 @@ def rule_ind_nowrite(ctx: RuleContext, p: Program, rid: str) -> None:
 
 
 def run(ctx: RuleContext, p: Program) -> None:
-    rule_ind_flow(ctx, p, 'IND-FLOW')
-    rule_ind_class(ctx, p, 'IND-CLASS')
-    rule_ind_comment(ctx, p, 'IND-COMMENT')
-    rule_ind_nowrite(ctx, p, 'IND-NOWRITE')
+    ctx.try_rule(rule_ind_flow, p, 'IND-FLOW')
+    ctx.try_rule(rule_ind_class, p, 'IND-CLASS')
+    ctx.try_rule(rule_ind_comment, p, 'IND-COMMENT')
+    ctx.try_rule(rule_ind_nowrite, p, 'IND-NOWRITE')
     ctx.not_decided += ['concrete indentation strings', 'that inserted raw nodes print their own indent verbatim (C01/C02)']
     ctx.assumptions += ['MetaItem.from_value(indent=...) and BlockComment.from_value(indent=...) use the given indent (IND-CLASS '
                         'checks the generated from_value of MetaItem itself)']
